@@ -198,6 +198,7 @@ def build_units3():
         serde = name not in NOSERDE3
         units.append(corpus.Unit("M%d" % n, "pub type M%d = %s;" % (n, ty), vals if serde else [], serde=serde, deser=de and serde, meta={"row": name, "ty": ty, "users": users}))
         units.append(corpus.Unit("E%d" % n, "#[derive(TS)] pub struct E%d { pub f: %s }" % (n, ty), [], serde=False, meta={"depsof": n}))
+        units.append(corpus.Unit("EO%d" % n, "#[derive(TS)] #[ts(optional_fields)] pub struct EO%d { pub f: %s }" % (n, ty), [], serde=False, meta={"optof": n}))
     return units + pair_units(True)
 
 
@@ -207,6 +208,7 @@ def build_units():
         u = corpus.Unit("L%d" % n, "pub type L%d = %s;" % (n, ty), vals, serde=True, deser=de, meta={"row": name, "ty": ty, "users": users})
         units.append(u)
         units.append(corpus.Unit("D%d" % n, "#[derive(TS)] pub struct D%d { pub f: %s }" % (n, ty), [], serde=False, meta={"depsof": n}))
+        units.append(corpus.Unit("DO%d" % n, "#[derive(TS)] #[ts(optional_fields)] pub struct DO%d { pub f: %s }" % (n, ty), [], serde=False, meta={"optof": n}))
     return units + pair_units(False)
 
 
@@ -241,6 +243,19 @@ def judge_rows(rows, prefix, dprefix, c, obs, env, v, acc):
         acc["records"].append({"kind": "wit", "decls": [], "root": root, "json": tsparse.json_value(w), "accepted": acc_,
                                "reser": tsparse.json_value(json.loads(r["ok"])) if acc_ else {"k": "null"}})
         acc["meta"].append((name, "name", "wit", js, text, r))
+    # only Option is an option: under #[ts(optional_fields)] a field of any other library type is bound as without it
+    for n, (name, ty, vals, de, users) in enumerate(rows):
+        if ty.startswith("Option<"):
+            continue
+        a_, b_ = obs["%sO%d" % (dprefix, n)]["info"]["inline"], obs["%s%d" % (dprefix, n)]["info"]["inline"]
+        if "ok" not in a_ or "ok" not in b_:
+            if ("ok" in a_) != ("ok" in b_):
+                v.fail({"prop": PROP, "row": name, "tag": "optional_fields_changes_non_option", "which": "inline"}, {"with": a_, "without": b_})
+            continue
+        acc["records"].append({"kind": "same", "decls": [], "root": tsparse.strip(tsparse.parse_type(a_["ok"])), "other": tsparse.strip(tsparse.parse_type(b_["ok"])),
+                               "json": {"k": "null"}, "accepted": True, "reser": {"k": "null"}})
+        acc["meta"].append((name, "field under optional_fields", "same", a_["ok"], b_["ok"]))
+        acc["pairs"] += 1
     for n, (name, ty, vals, de, users) in enumerate(rows):
         d = obs["%s%d" % (dprefix, n)]["info"]["deps"]
         if "ok" not in d:
